@@ -380,6 +380,8 @@ package keeper
 //@ store FaultIdx  kv=node/Fault/value/   key=node_FaultKey raw
 //@ store FaultById kv=node/Fault/faultId/ key=strbytes      val=github.com/SaoNetwork/sao/x/node/types.Fault
 
+//@ store FishingReward kv=node/FishingReward/value/ key=strbytes raw
+
 //@ func (Keeper) SetFault(ctx, fault)
 //@   requires fault != nil
 //@   modifies FaultIdx, FaultById, *fault
@@ -390,6 +392,7 @@ package keeper
 // The second loop ranges over a Go map: its effect is stated as a function of the map's content only (order-free).
 //@ func (Keeper) DoPenalty(ctx)
 //@   modifies FaultIdx, FaultById
+//@   ensures [C19.penalty.frame] (forall a addr, d string :: bal(a, d) == old(bal(a, d))) && (forall c string :: Pledge[c] == old(Pledge[c]) && (has(Pledge, c) <==> old(has(Pledge, c))))
 //@   loop L1 invariant 0 <= itpos()
 //@   loop L2 invariant [C01.maporder.penalty] forall k bytes :: rawsel(FaultIdx, k) ==
 //@       (visited(keyinv(Node, k)) && indom(totalPenaltyMap, keyinv(Node, k)) && totalPenaltyMap[keyinv(Node, k)] > maxPenalty && has(Node, keyinv(Node, k)) && k == keyof(Node, keyinv(Node, k))
